@@ -38,6 +38,38 @@ pub struct Scenario {
 
 pub fn scenarios(prop: &str) -> Vec<Scenario> {
     let mut v = Vec::new();
+    if prop == "C06" {
+        // spin-then-park transition: the owner blocks, spins to the end of its spin phase, makes
+        // i more steps (storing its thread handle, announcing that it parks, parking), then the
+        // peer makes j steps of the operation that must release it
+        for cap in [Cap::N(0), Cap::N(1)] {
+            for pay in [Pay::P4, Pay::P16] {
+                for peer in [
+                    vec![K::Send],
+                    vec![K::TrySend, K::TrySend],
+                    vec![K::SendTimeout],
+                    vec![K::AsyncSend],
+                    vec![K::Close],
+                    vec![K::DropH, K::DropH],
+                    vec![K::TrySendRt, K::TrySendRt],
+                ] {
+                    v.push(Scenario { owner: K::Recv, peer, cap, pay });
+                }
+                for peer in [
+                    vec![K::Recv],
+                    vec![K::TryRecv, K::TryRecv],
+                    vec![K::RecvTimeout],
+                    vec![K::AsyncRecv],
+                    vec![K::Drain],
+                    vec![K::Close],
+                    vec![K::DropH, K::DropH],
+                ] {
+                    v.push(Scenario { owner: K::Send, peer, cap, pay });
+                }
+            }
+        }
+        return v;
+    }
     if prop == "C13" {
         // timed operations: the deadline expires (clock jump) after the owner made i steps
         // and the peer j steps of its own operation
@@ -134,6 +166,10 @@ pub fn build_case(p: &Profile, sc: &Scenario, i: u32, j: u32) -> Case {
         .collect();
     // schedule: i one-step segments for the owner (thread 0), j for the peer (thread 1)
     let mut sched = Vec::new();
+    if matches!(sc.owner, K::Recv | K::Send) {
+        // first run the owner to the end of its spin phase (position-targeted segment)
+        sched.extend_from_slice(&[0u8, 13u8]);
+    }
     for _ in 0..i {
         sched.extend_from_slice(&[0u8, 0u8]);
     }
@@ -170,7 +206,7 @@ fn byte_for_prober(p: &Profile) -> u8 {
 pub fn run_part(prop: &str, tier: &str, part: usize, parts: usize) {
     std::env::set_var("VERIF_CASE_TIER", "quick");
     let p = props::profile(prop, "quick");
-    let (imax, jmax) = grid(tier);
+    let (imax, jmax) = grid_for(prop, tier);
     let scs: Vec<Scenario> = scenarios(prop).into_iter().enumerate().filter(|(i, _)| i % parts == part).map(|(_, s)| s).collect();
     let mut evaluations = 0u64;
     let mut nontrivial = 0u64;
@@ -184,7 +220,15 @@ pub fn run_part(prop: &str, tier: &str, part: usize, parts: usize) {
                 let o = run_case(prop, &case);
                 evaluations += 1;
                 let cls = |k: &str| o.classes.iter().find(|c| c.0 == k).map(|c| c.1).unwrap_or(0);
-                if prop == "C13" {
+                if prop == "C06" {
+                    if cls("parked") > 0 {
+                        nontrivial += 1;
+                        if samples.is_empty() && cls("wake_unpark") > 0 {
+                            samples.push(o.sample.clone());
+                        }
+                    }
+                    claimed += cls("wake_unpark") as u64;
+                } else if prop == "C13" {
                     if cls("timeout_while_registered") + cls("timed_success_after_deadline") > 0 {
                         nontrivial += 1;
                         if samples.is_empty() && cls("timed_success_after_deadline") > 0 {
@@ -215,18 +259,19 @@ pub fn run_part(prop: &str, tier: &str, part: usize, parts: usize) {
     println!("{}", json!({"evaluations": evaluations, "nontrivial": nontrivial, "claimed": claimed, "samples": samples, "failure": f}));
 }
 
-fn grid(tier: &str) -> (u32, u32) {
-    if tier == "thorough" {
-        (56, 40)
-    } else {
-        (30, 22)
+fn grid_for(prop: &str, tier: &str) -> (u32, u32) {
+    match (prop, tier == "thorough") {
+        ("C06", true) => (24, 48),
+        ("C06", false) => (16, 36),
+        (_, true) => (56, 40),
+        (_, false) => (30, 22),
     }
 }
 
 /// Runs the whole grid in 8 processes; returns the exit code and appends a part to the evidence file.
 pub fn run(prop: &str, tier: &str, seed: u64) -> i32 {
     let t0 = std::time::Instant::now();
-    let (imax, jmax) = grid(tier);
+    let (imax, jmax) = grid_for(prop, tier);
     let scs = scenarios(prop);
     let parts = 8usize;
     let exe = std::env::current_exe().expect("exe");
@@ -299,7 +344,9 @@ pub fn run(prop: &str, tier: &str, seed: u64) -> i32 {
             "evaluations": evaluations,
             "distinct_nontrivial": nontrivial,
             "exhaustive": fail.is_none(),
-            "rule": if prop == "C13" {
+            "rule": if prop == "C06" {
+                format!("exhaustive grid: {} two-thread scenarios (blocking recv / send x releasing peer operation(s) incl. close and last-handle drop x capacity {{0,1}} x payload {{4,16 bytes}}); the owner is run to the end of its 256-yield spin phase, then makes i in 0..={} further steps (store thread handle, announce parking, park), then the peer makes j in 0..={} steps, then the fair tail; every grid point is a distinct case; non-trivial = the owner really parked ({} grid points released it through unpark)", scs.len(), imax, jmax, claimed)
+            } else if prop == "C13" {
                 format!("exhaustive grid: {} two-thread scenarios (timed operation x peer operation(s) x capacity {{0,1}} x payload {{4,16 bytes, zero-sized}}) x owner progress i in 0..={} x peer progress j in 0..={} one-step schedule segments, then the virtual clock jumps past the deadline and the owner resumes; every grid point is a distinct case; non-trivial = the deadline expired while the operation was registered (or it completed after its deadline because a peer had claimed it: {} grid points)", scs.len(), imax, jmax, claimed)
             } else {
                 format!("exhaustive grid: {} two-thread scenarios (future kind x peer operation(s) x capacity {{0,1}} x payload {{4,16 bytes}}) x owner progress i in 0..={} x peer progress j in 0..={} one-step schedule segments before the owner resumes and drops the future; every grid point is a distinct case; non-trivial = the future had been polled when it was dropped; {} grid points dropped it after a peer had already claimed it", scs.len(), imax, jmax, claimed)
